@@ -42,8 +42,43 @@ def gen_def(rng):
                 fields.append(adef.mk_field(FN[len(fields)], rng.choice(["uint", "uint", "int"]), s, e))
         if not fields:
             fields = [adef.mk_field("alpha", "uint", 0, size)]
-        objs.append(adef.mk_register(["Ra", "Rb", "Rc"][i], i, size, fields, byte_order=bo, bit_order=bi))
+        allow = None
+        if size >= 4 and len(fields) < len(FN) and rng.random() < 0.3:
+            # a field that OVERLAPS an existing one: partial, enclosing it, inside it, or equal; declared before or after it.
+            # Without AllowBitOverlap the definition must be rejected ("... unless the definition lets them overlap").
+            g = rng.choice(fields)
+            gs, ge = g["start"], (g["end"] if g["end"] is not None else g["start"] + 1)
+            shape = rng.choice(["partial", "encloses", "inside", "equal"])
+            if shape == "partial":
+                s, e = (max(0, gs - 1), gs + 1) if gs > 0 else (ge - 1, min(size, ge + 1))
+            elif shape == "encloses":
+                s, e = max(0, gs - 1), min(size, ge + 1)
+            elif shape == "inside":
+                s, e = (gs + 1, ge - 1) if ge - gs >= 3 else (gs, ge)
+            else:
+                s, e = gs, ge
+            if e - s >= 1 and e <= size and not (e <= gs or ge <= s):
+                nf = adef.mk_field(FN[len(fields)], "uint", s, e)
+                fields.insert(rng.choice([0, fields.index(g), fields.index(g) + 1, len(fields)]), nf)
+                allow = rng.choice([None, None, False, True])
+        r = adef.mk_register(["Ra", "Rb", "Rc"][i], i, size, fields, byte_order=bo, bit_order=bi)
+        if allow is not None:
+            r["allow_bit_overlap"] = allow
+        objs.append(r)
     return {"config": cfg, "objects": objs}
+
+
+def must_be_rejected(d):
+    """Some field set has two fields sharing a bit and does not allow it."""
+    for o in d["objects"]:
+        if o.get("allow_bit_overlap"):
+            continue
+        rs = [(f["start"], f["end"] if f["end"] is not None else f["start"] + 1) for f in o["fields"]]
+        for a in range(len(rs)):
+            for b in range(a + 1, len(rs)):
+                if rs[a][0] < rs[b][1] and rs[b][0] < rs[a][1]:
+                    return o["name"], o["fields"][a]["name"], o["fields"][b]["name"]
+    return None
 
 
 def phys(be, msb0, nbytes, k):
@@ -68,7 +103,7 @@ def run_gen_phase(ctx):
         return {"evaluations": 0, "distinct": 0}
     known = {k["id"]: k for k in vlib.load_known_findings("C02")}
     rng = random.Random(ctx.seed * 5 + 2)
-    nd = 14 if ctx.tier == "quick" else 120
+    nd = 20 if ctx.tier == "quick" else 150
     cases, defs = [], {}
     for i in range(nd):
         d = gen_def(rng)
@@ -78,14 +113,26 @@ def run_gen_phase(ctx):
         cases.append({"id": cid, "syntax": syntax, "text": adef.render(d, syntax, rng), "name": "Dev", "want": ["mir", "facts", "pretty"]})
     res = gen_common.run_gen(ctx, exe, cases, tag="c02g")
     viol = []
+    hist = collections.Counter()
     mods, main, plan = {}, [], {}
     for c in cases:
         cid = c["id"]
         r = res[cid]
-        if r.get("status") != "ok" or not r.get("parse_ok"):
-            viol.append((c, "a well-formed definition (disjoint in-range fields) was not accepted", gen_common.canon_status(r), None))
-            continue
         d = defs[cid]
+        ov = must_be_rejected(d)
+        if ov:
+            st = gen_common.canon_status(r)
+            if st == "ok":
+                viol.append((c, f"{ov[0]}: fields {ov[1]} and {ov[2]} share bits and the definition does not allow it, but it is accepted: "
+                                f"setting one changes what the other reads", "accepted", "rejected (field_overlap)"))
+            elif not st.startswith("error:field_overlap"):
+                viol.append((c, f"{ov[0]}: overlapping fields {ov[1]} / {ov[2]}: expected the overlap error", st, "error:field_overlap"))
+            else:
+                hist["overlap_rejected"] += 1
+            continue
+        if r.get("status") != "ok" or not r.get("parse_ok"):
+            viol.append((c, "a well-formed definition (in-range fields, overlap only where allowed) was not accepted", gen_common.canon_status(r), None))
+            continue
         mods[cid] = r["pretty"]
         facts = {fs["name"]: (j, fs) for j, fs in enumerate(r["facts"]["field_sets"])}
         for o in d["objects"]:
@@ -133,7 +180,6 @@ def run_gen_phase(ctx):
                 plan[(cid, j, rep)] = {"case": c, "be": be, "msb0": msb0, "n": n, "fields": flds, "steps": steps, "start": b,
                                        "setters": setters, "set": fs["name"]}
     nsteps = 0
-    hist = collections.Counter()
     shapes = set()
     if mods and not viol:
         l2.write_crate(ctx, "c02l2", mods, "fn main() {\n" + "\n".join(main) + "\n}\n")
